@@ -36,7 +36,22 @@ def rechunk(case, mode, rng):
 
 
 def to_json_case(case):
-    return {'acts': case.get('acts', {}), 'debug': bool(case.get('debug')), 'ops': case['ops'], 'tls': {str(k): v for k, v in case['tls'].items()}}
+    out = {'acts': case.get('acts', {}), 'debug': bool(case.get('debug')), 'ops': case['ops'], 'tls': {str(k): v for k, v in case['tls'].items()}}
+    if case.get('raw'):
+        out['raw'] = True
+        out['ready'] = case.get('ready')
+    return out
+
+
+def drop_ghosts(groups, case):
+    """the Deferreds of the commands the protocol submits itself are not handed to anybody: their completions cannot be observed"""
+    ghosts = {str(op[1]) for op in case['ops'] if op[0] == 'ghost'}
+    if not ghosts:
+        return groups
+    out = []
+    for kind, items in groups:
+        out.append((kind, [x for x in items if not (x.split(' ')[0] in ('ok', 'oknone', 'err', 'discerr', 'cb') and x.split(' ')[1] in ghosts)]))
+    return out
 
 
 def make_run_cases(tagger):
@@ -60,6 +75,8 @@ def make_run_cases(tagger):
             if outs_all is not None:
                 a, n, idx = spans[k]
                 m, s, rej = ctl.parse_driver(outs_all[a:a + n], idx)
+                if c.get('raw'):
+                    m, s = drop_ghosts(m, c) + [('ready', list(c.get('ready') or []))], drop_ghosts(s, c) + [('ready', list(c.get('ready') or []))]
                 model, spec = ctl.canon(m), ctl.canon(s)
                 in_h = not rej
             tags, nontrivial = tagger(c, im)
